@@ -1,4 +1,3 @@
-use std::cmp::Ordering;
 use std::fmt::Display;
 use std::ops::Range;
 
@@ -126,13 +125,13 @@ pub struct VariableTime {
 
 impl Display for VariableTime {
     fn fmt(&self, f: &mut std::fmt::Formatter<'_>) -> std::fmt::Result {
-        write!(f, "{}", self.event)?;
-
-        match self.offset.cmp(&0) {
-            Ordering::Less => write!(f, "{}", self.offset),
-            Ordering::Greater => write!(f, "+{}", self.offset),
-            Ordering::Equal => Ok(()),
+        if self.offset == 0 {
+            return write!(f, "{}", self.event);
         }
+
+        let sign = if self.offset < 0 { '-' } else { '+' };
+        let mins = self.offset.unsigned_abs();
+        write!(f, "({}{sign}{:02}:{:02})", self.event, mins / 60, mins % 60)
     }
 }
 
